@@ -649,7 +649,12 @@ class EAFlow:
             hold = self.discr_of.get(dl) if dl is not None else None
             if hold is not None and hold in pend and pend[hold][0] in ('res', 'cf'):
                 kind, locs = pend[hold]
+                explicit = {lab for lab, _t in body.edges(b) if lab != 'otherwise'}
                 for label, tgt in body.edges(b):
+                    if label == 'otherwise' and explicit == {1}:
+                        label = 0
+                    elif label == 'otherwise' and explicit == {0}:
+                        label = 1
                     if label == 0:
                         d2 = set(dirty) | locs
                         p2 = {pk: (v[0], set(v[1])) for pk, v in pend.items() if pk != hold}
